@@ -115,9 +115,9 @@ func (v *Verifier) tryReplay(prop string, o *Oblig, rec map[string]interface{}) 
 		imps = append(imps, fmt.Sprintf("\t%q", path))
 	}
 	sort.Strings(imps)
-	src := "package " + pkg.Name() + "\n\nimport (\n\t\"fmt\"\n\t\"testing\"\n" + strings.Join(imps, "\n") + "\n)\n\n" +
+	src := "package " + pkg.Name() + "\n\nimport (\n\t\"fmt\"\n\t\"runtime/debug\"\n\t\"strings\"\n\t\"testing\"\n" + strings.Join(imps, "\n") + "\n)\n\n" +
 		"func TestGvcReplay(t *testing.T) {\n" +
-		"\tdefer func() {\n\t\tif r := recover(); r != nil {\n\t\t\tfmt.Println(\"GVC-REPLAY-PANIC:\", r)\n\t\t}\n\t}()\n\t" +
+		"\tdefer func() {\n\t\tif r := recover(); r != nil {\n\t\t\tfmt.Println(\"GVC-REPLAY-PANIC:\", r)\n\t\t\tfmt.Println(\"GVC-REPLAY-STACK:\", strings.ReplaceAll(string(debug.Stack()), \"\\n\", \" | \"))\n\t\t}\n\t}()\n\t" +
 		strings.Join(decls, "\n\t") + "\n\t" + call + "(" + strings.Join(args, ", ") + ")\n" +
 		"\tfmt.Println(\"GVC-REPLAY-NOPANIC\")\n}\n"
 	tmp, err := os.MkdirTemp("", "gvc-replay-")
@@ -140,13 +140,25 @@ func (v *Verifier) tryReplay(prop string, o *Oblig, rec map[string]interface{}) 
 	text := string(out)
 	rec["replay_test"] = src
 	rec["replay_cmd"] = "go test -overlay <overlay injecting the test above as " + target + "> -vet=off -run ^TestGvcReplay$ ./" + dir
+	// the run counts only when the panic comes from the instruction the obligation is
+	// about: its source position must be on the panicking goroutine's stack
+	panicMsg, stack := "", ""
 	for _, ln := range strings.Split(text, "\n") {
 		if strings.HasPrefix(ln, "GVC-REPLAY-PANIC:") {
+			panicMsg = strings.TrimSpace(strings.TrimPrefix(ln, "GVC-REPLAY-PANIC:"))
+		}
+		if strings.HasPrefix(ln, "GVC-REPLAY-STACK:") {
+			stack = ln
+		}
+	}
+	if panicMsg != "" {
+		if o.Pos != "" && strings.Contains(stack, "/"+o.Pos+" ") {
 			rec["inputs"] = strings.Join(desc, "; ")
 			rec["expected"] = "no panic (" + o.Src + ")"
-			rec["observed"] = strings.TrimSpace(strings.TrimPrefix(ln, "GVC-REPLAY-PANIC:"))
+			rec["observed"] = panicMsg
 			return true
 		}
+		rec["replay_note"] = "the empty-heap instance panics (" + panicMsg + ") but not at " + o.Pos + ": not counted as a replay of this obligation"
 	}
 	rec["replay_output"] = firstLines(text, 12)
 	return false
